@@ -397,7 +397,7 @@ func ModelFromRow(t *Table, ty reflect.Type, uuid string, r Row) any {
 		}
 	}
 	for _, cn := range t.ColNames {
-		f := v.FieldByName(FieldName(cn))
+		f := fieldByCol(v, cn)
 		val := r[cn]
 		switch f.Kind() {
 		case reflect.Map:
